@@ -1,8 +1,8 @@
 package main
 
 import (
-	"strings"
 	"fmt"
+	"strings"
 
 	"verif/internal/dsl"
 	"verif/internal/space"
